@@ -39,7 +39,7 @@ def plan_batch(rnd, size, napps, base):
     for k in range(size):
         rid = base + k
         r = rnd.random()
-        kind = 'ok' if r < 0.75 else rnd.choice(['unknown', 'missing', 'badenc', 'poison'])
+        kind = 'ok' if r < 0.7 else rnd.choice(['unknown', 'missing', 'renamed', 'badenc', 'badaccept', 'poison'])
         batch.append((rid, f'app{rnd.randint(1, napps)}' if kind != 'unknown' else 'nope', kind, rnd.choice([0, 0, 1, 3, 7, 15, 30])))
     rnd.shuffle(batch)
     return batch
@@ -50,6 +50,10 @@ def make_request(rid, kind, delay):
     csv = layout.Encoding('text/csv')
     if kind == 'missing':
         return layout.Request(f'rid\n{rid}\n'.encode(), csv, {}, [csv])
+    if kind == 'renamed':   # as wide as the feature list, one column under another name
+        return layout.Request(f'rid,valve\n{rid},{delay}\n'.encode(), csv, {}, [csv])
+    if kind == 'badaccept':  # decodable request, no supported response encoding: fails in the response-encoding process pool
+        return layout.Request(f'rid,delay\n{rid},{delay}\n'.encode(), csv, {}, [layout.Encoding('image/png')])
     if kind == 'badenc':
         return layout.Request(f'rid,delay\n{rid},{delay}\n'.encode(), layout.Encoding('foo/bar'), {}, [csv])
     if kind == 'poison':    # a well-formed request the model refuses with a forml error half-way through the pipeline
